@@ -122,3 +122,18 @@ impl<T: Copy> PtrS<T> {
 #[verifier::external_body] pub fn slice_sub<T>(s: &[T], a: usize, b: usize) -> (r: &[T]) requires a <= b, b <= s@.len() ensures r@ == s@.subrange(a as int, b as int) { unimplemented!() }
 // N19: Vec::extend_from_slice on Copy values appends the slice's elements themselves
 #[verifier::external_body] pub fn vec_extend_copy<T: Copy>(v: &mut Vec<T>, s: &[T]) ensures final(v)@ == old(v)@ + s@ { v.extend_from_slice(s) }
+
+// ---- serialize_raw_changes (U21): which stored slots the record's tail reads from the file ----
+// `a.keys().chain(b.keys()).copied().collect::<BTreeSet<usize>>()`
+#[verifier::external_body]
+pub fn keys_union<T>(a: &BTreeMap<usize, T>, b: &BTreeMap<usize, T>) -> (r: BTreeSet<usize>)
+    ensures forall|k: usize| r@.contains(k) <==> (a@.contains_key(k) || b@.contains_key(k))
+{ a.keys().chain(b.keys()).copied().collect() }
+// `for &i in &set`: the elements in ascending order
+#[verifier::external_body]
+pub fn bset_sorted(s: &BTreeSet<usize>) -> (r: Vec<usize>)
+    ensures forall|j: int| 0 <= j < r@.len() ==> s@.contains(#[trigger] r@[j])
+{ s.iter().copied().collect() }
+// `bytes.extend(n.to_bytes())`
+#[verifier::external_body] pub fn extend_usize_bytes(v: &mut Vec<u8>, n: usize) ensures final(v)@.len() == old(v)@.len() + 8 { v.extend(n.to_le_bytes()) }
+pub trait WriteStrategy<T>: Sized { fn write_to_vec(value: &T, buf: &mut Vec<u8>); }
